@@ -15,6 +15,7 @@ package c02
 
 import (
 	"fmt"
+	"os"
 	"strings"
 	"testing"
 
@@ -297,3 +298,79 @@ func TestApplyL1(t *testing.T)       { run(t, profL1, recL1) }
 func TestApplyL2(t *testing.T)       { run(t, profL2, recL2) }
 func TestApplySnapshot(t *testing.T) { run(t, profSnap, recSnap) }
 func TestApplyL3(t *testing.T)       { run(t, profL3, recL3) }
+
+// ---- regression probe of the finding recorded for this property ----
+
+// C02-nonleader-commits-on-conf-replay: group {1,2}; leader 2 snapshots (ConfState {1,2}),
+// removes 1 (it is the only voter for a moment), adds 3 and 4. Cut off, it appends X at index k in term T and dies.
+// 3 and 4 elect 3 in term T+1 and commit another entry at k. Replica 2 restarts in term T
+// from that snapshot (newRaft creates its own progress with Match = last index) and
+// re-applies the committed entries behind it; when it re-applies "remove node 1" its
+// rebuilt configuration is {2}, raft.removeNode calls maybeCommit although 2 is a follower,
+// the quorum of one is its own last index, the entry there is of its current term: X is
+// committed and handed out.
+func TestKnownNonLeaderCommitsOnConfReplay(t *testing.T) {
+	known.Probe(t, raftsim.KnownConfReplayCommit, func() (bool, string) {
+		msg := raftsim.Scripted(func(ct *raftsim.CollectT) {
+			p := raftsim.Params{N: 2, ElectionTick: 3, HeartbeatTick: 1, MaxSizePerMsg: 1 << 20, MaxCommittedSize: 1 << 40, MaxInflight: 8,
+				Storage: raftsim.StoreMem, Seed: 1, KeepLastAppResp: true, RealCtor: true}
+			s := raftsim.New(ct, p, newOracle(nil))
+			defer s.Close()
+			r1, r2 := s.Rep(1), s.Rep(2)
+			settle := func(n int) {
+				for i := 0; i < n; i++ {
+					s.TickAll()
+					s.Settle(200, nil, nil)
+				}
+			}
+			s.FullStep(r1)
+			s.FullStep(r2)
+			s.Campaign(r2)
+			s.FullStep(r2)
+			s.Settle(50, nil, nil)
+			if !s.Snapshot(r2, 0) {
+				ct.Fatalf("HARNESS: probe could not snapshot replica 2 (applied %d)", r2.App.Applied)
+			}
+			s.ProposeConf(r2, pb.ConfChangeRemoveNode, 1)
+			s.FullStep(r2)
+			settle(3)
+			r3 := s.AddReplica(false)
+			s.ProposeConf(r2, pb.ConfChangeAddNode, 3)
+			s.FullStep(r2)
+			settle(3)
+			r4 := s.AddReplica(false)
+			s.ProposeConf(r2, pb.ConfChangeAddNode, 4)
+			s.FullStep(r2)
+			settle(4)
+			if v := s.Peek(r2).Voters; len(v) != 3 || r3.App.Applied != r2.App.Applied || r4.App.Applied != r2.App.Applied {
+				ct.Fatalf("HARNESS: probe set-up failed: voters %v applied %d/%d/%d", v, r2.App.Applied, r3.App.Applied, r4.App.Applied)
+			}
+			s.SetSides([]int{0, 1, 0, 0})
+			s.Propose(r2, 8) // X: durable on 2 only
+			s.FullStep(r2)
+			s.Crash(r2, nil)
+			s.DropAll(nil)
+			s.Campaign(r3)
+			s.FullStep(r3)
+			s.Settle(50, nil, nil) // 3 leads term T+1, its entry at X's index commits with 4
+			settle(2)
+			s.Restart(r2, false)
+			for i := 0; i < 6; i++ {
+				s.FullStep(r2)
+			}
+			if os.Getenv("VERIF_PROBE_DEBUG") != "" {
+				fmt.Println(s.Describe())
+			}
+		})
+		if strings.HasPrefix(msg, "HARNESS:") {
+			t.Fatalf("%s", msg)
+		}
+		if msg != "" {
+			if i := strings.IndexByte(msg, '\n'); i >= 0 {
+				msg = msg[:i]
+			}
+			return true, msg
+		}
+		return false, ""
+	})
+}
